@@ -50,7 +50,7 @@ type AppCfg struct {
 }
 
 func (scApp) GenCfg(rng *sim.Rand, tier, prop, variant string) json.RawMessage {
-	c := AppCfg{Hairpin: rng.Chance(0.5), MTU: []int{576, 1500}[rng.Intn(2)], NReq: rng.Range(1, 6), NMsg: rng.Range(1, 8), RawWS: rng.Chance(0.5), Burst: rng.Chance(0.5)}
+	c := AppCfg{Hairpin: rng.Chance(0.5), MTU: []int{576, 1500, 576, 1500, 65536, 70000}[rng.Intn(6)], NReq: rng.Range(1, 6), NMsg: rng.Range(1, 8), RawWS: rng.Chance(0.5), Burst: rng.Chance(0.5)}
 	c.Async = rng.Chance(0.3)
 	b, _ := json.Marshal(c)
 	return b
@@ -475,7 +475,13 @@ func (w *appWorld) rawWS(r *sim.Rand) {
 		c.wait()
 	}
 	defer ep.Close()
-	key := base64.StdEncoding.EncodeToString([]byte(appText(w.seed, 31337, 16)))
+	// (a key is the base64 form of a nonce; 16 bytes is what RFC 6455 clients send, the accept value is defined for any key)
+	nonce := 16
+	if r.Chance(0.3) {
+		nonce = []int{6, 20, 32, 52}[r.Intn(4)]
+		w.Probes["ws_keys_of_unusual_length"]++
+	}
+	key := base64.StdEncoding.EncodeToString([]byte(appText(w.seed, 31337, nonce)))
 	req := "GET /ws HTTP/1.1\r\nHost: 192.168.1.1:9000\r\nUpgrade: websocket\r\nConnection: Upgrade\r\nSec-WebSocket-Key: " + key + "\r\nSec-WebSocket-Version: 13\r\n\r\n"
 	if !c.write([]byte(req)) {
 		w.Fail("client-failed", "", "raw websocket client: cannot write the upgrade request")
